@@ -44,25 +44,37 @@ def C08(run):
     rc, err = run_harness(run, exe, [run.tier], out)
     if rc != 0:
         _harness_crash(run, rc, err, "cbor_stream_decode sweep", "wire-crash:" + err[-200:])
+    # "keeps no state between calls": the library's globals write-protected during a sweep of calls (shared-library build)
+    libs = build_lib(run, "shared")
+    exeg = build_harness(run, libs, "h_wire_g", ["vh.c", "h_wire.c"], extra=["-DVH_GLOBALS"], libs=["-ldl"])
+    part = run.path("wire-globals.ndjson")
+    rc, err = run_harness(run, exeg, ["globals"], part, env={"LD_BIND_NOW": "1"})
+    if rc != 0:
+        _harness_crash(run, rc, err, "cbor_stream_decode with write-protected library globals", "wire-globals-crash:" + err[-200:])
+    open(out, "ab").write(open(part, "rb").read())
     n = count_lines(out)
     run.log("recorded %d calls" % n)
     res = tracecheck(run, "Trace_Wire", out, boundary=None)
     _report_rejects(run, res, "cbor_stream_decode contract", lambda ln, r: "sd buf=%s n=%s" % (ln.get("buf"), ln.get("n")))
-    kinds = set()
+    kinds, gl = set(), {}
     with open(out) as f:
         for l in f:
             d = json.loads(l)
+            if d["e"] == "globals":
+                gl = d
+                continue
             kinds.add((d["buf"][0] if d["buf"] else -1, min(d["n"], 12), d["st"]))
     write_evidence(run, "model_checking", {
         "states": mc["distinct"], "transitions": mc["generated"],
         "traces_validated_against_impl": n - len(res["rejects"]),
         "samples": _sample_lines(out, 3, lambda l: '"fin"' in l) + _sample_lines(out, 2, lambda l: '"nedata"' in l),
         "evaluations": n, "distinct_nontrivial": len(kinds),
+        "calls_with_library_globals_write_protected": gl.get("calls", 0), "writable_segments_protected": gl.get("segments", 0),
         "rule": "one case = one cbor_stream_decode call on an exactly-sized heap window; distinct = (initial byte, window length capped at 12, status); all 256 initial bytes x argument values (1-byte exhaustive, 2-byte %s, 4/8-byte every 2^k-1,2^k,2^k+1 + seeded random) x window lengths 0..head+1 and payload-1,payload,payload+1" % ("exhaustive" if not run.quick() else "strided by 251 + boundaries"),
         "trace_lines_validated_by_TLC": res["lines"], "trace_shards": res["shards"], "exhaustive": False},
         ["CborWire.StreamDecode is the requirement (RFC 8949 initial-byte table, cross-checked against the Appendix-B range table by MC_Wire)",
          "ASan/UBSan (dbg build) observe out-of-window reads; the spec judges status/read/required/callback/arguments/allocations",
-         "statelessness and suffix-independence are judged by validating every call independently against the same function (repeated heads, varied trailing bytes)"])
+         "statelessness and suffix-independence are judged by validating every call independently against the same function (repeated heads, varied trailing bytes, every start alignment modulo 16), and by a sweep of calls with libcbor.so's writable segments write-protected (a store to any static or global faults; device self-tested by re-installing the allocators)"])
 
 
 # ---------------------------------------------------------------------------------------------- cbor_load family
